@@ -369,6 +369,11 @@ func apply(e *secp256k1.Element, st Step, cur ref.Point) (*secp256k1.Element, er
 			return nil, &BuilderError{Msg: "Decode of own encoding rejected: " + err.Error()}
 		}
 		return e, nil
+	case "structcopy":
+		// a Go-level copy by struct assignment, then the original is changed: the copy must be independent
+		c := *e
+		e.Double().Negate()
+		return &c, nil
 	case "copy":
 		return e.Copy(), nil
 	case "set":
@@ -434,7 +439,7 @@ func Build(s Spec) (*Built, error) {
 // ---------------------------------------------------------------------------------------------------
 
 var (
-	stepsAny  = []string{"addO", "Oadd", "subO", "addsub", "subadd", "dblsub", "negneg", "decenc", "decunc", "selfdec", "selfdecunc", "copy", "set", "rescale", "rescale", "target", "target"}
+	stepsAny  = []string{"addO", "Oadd", "subO", "addsub", "subadd", "dblsub", "negneg", "decenc", "decunc", "selfdec", "selfdecunc", "copy", "set", "structcopy", "rescale", "rescale", "target", "target"}
 	stepsSlow = []string{"dblhalf", "mulinv"}
 	stepsID   = []string{"id:p-p", "id:p+negp", "id:mul0", "id:kn-k", "id:o-o", "id:decode00", "id:mulnil", "id:wb", "id:wb"}
 )
